@@ -244,12 +244,15 @@ def run(ctx):
     per_finding = {}
     for b, n in FLAG_NAMES:
         dist["flag_" + n] = 0
+    dist["compared_with_model"] = 0
     for i, c in enumerate(cases):
         code = rep.get(i, 0)
         v, flags = code % 4, code // 4
         for b, n in FLAG_NAMES:
             if flags & b:
                 dist["flag_" + n] += 1
+        if not (flags & (256 | 128)):
+            dist["compared_with_model"] += 1
         if c["error"] is not None:
             dist["handler_error"] += 1
         if not c["stub_ok"]:
@@ -294,11 +297,16 @@ def run(ctx):
 
 def replay(ctx, payload):
     c = make_case(payload["stub"], payload["source"], payload["overwrite"], payload["confine"], payload.get("meta", "replay"))
-    outs = common.run_coq_shards(ctx.work, "c15r", HEADER, [c["term"]], "acase",
-                                 "(bad report 0 cases, map model cases)", shard_size=60)
+    outs = common.run_coq_shards(ctx.work, "c15r", HEADER, [c["term"]], "acase", "bad report 0 cases")
+    mpath = os.path.join(ctx.work, "c15_model.v")
+    with open(mpath, "w") as f:
+        f.write(HEADER + f"Definition the_case : acase := {c['term']}.\nEval vm_compute in (model the_case).\n")
+    mouts = [(0, common.run_coqc(mpath)[1])]
     print("--- stub\n" + c["stub"] + "\n--- source\n" + c["source"])
     print("--- implementation output\n" + (c["out"] if c["out"] is not None else "raised: " + str(c["error"])))
-    print("--- report (verdict + 4*flags) and model output\n" + outs[0][1])
+    if c.get("second") is not None:
+        print("--- second application gives\n" + str(c["second"]))
+    print("--- model output (None = outside the modelled fragment / confinement on)\n" + mouts[0][1][:6000])
     code = dict(common.parse_bad(outs[:1])).get(0, 0)
     print("flags:", [n for b, n in FLAG_NAMES if (code // 4) & b], "verdict:", code % 4)
     return 1 if code % 4 else 0
